@@ -269,7 +269,7 @@ def run(eng, R):
         if common.const_str(a) is not None:
             ok = det_names == {common.const_str(a)}
         else:
-            ok = " ".join(ast.unparse(a).split()) == "self._cost_function.arg_names[-1]"  # last argument = determinant node (D4)
+            ok = " ".join(ast.unparse(common.resolve_local(cp.node, a)).split()) == "self._cost_function.arg_names[-1]"  # last argument = determinant node (D4); temporaries read through
     R.ob("D2", "FitBase.chi2_probability", ok, eng.where(cp),
          "chi2_probability subtracts %s (guarded by add_determinant_cost: %s); the registry cost functions add %s" % ([ast.unparse(a) for a in gets], guard_ok, sorted(det_names)))
 
